@@ -56,6 +56,10 @@ val sub : nat -> nat -> nat
 
 val eqb : nat -> nat -> bool
 
+val leb : nat -> nat -> bool
+
+val ltb : nat -> nat -> bool
+
 val max : nat -> nat -> nat
 
 val bool_dec : bool -> bool -> bool
@@ -1173,6 +1177,18 @@ val norm_print : node -> node
 
 val roundtrip_ok : node -> node -> bool
 
+val effect_kind : kind -> bool
+
+val temp_assign : char list -> node -> bool
+
+val effect_spans : char list -> node -> ((kind * n) * n) list
+
+val key_eqb : ((kind * n) * n) -> ((kind * n) * n) -> bool
+
+val count_key : ((kind * n) * n) -> ((kind * n) * n) list -> nat
+
+val dup_effects : char list -> node -> node -> (n * n) list
+
 type site_cfg = { sc_plus : bool; sc_tpl : bool; sc_methods : char list list;
                   sc_lit_callers : char list list }
 
@@ -1220,7 +1236,7 @@ val let_names : char list -> node list -> char list list
 
 val has_dup : char list list -> bool
 
-type hctx = { h_decl : char list list option; h_crossed : bool;
+type hctx = { h_decl : char list list option; h_crossed : char list option;
               h_assigned : char list list; h_live : char list list }
 
 type issue = char list * char list
@@ -1256,6 +1272,8 @@ val simple_arg : char list -> node -> bool
 val match_args : char list -> expected list -> node list -> char list list
 
 val apply_spread_args : node -> bool
+
+val apply_unexpanded_args : node -> bool
 
 val has_dup_str : char list list -> bool
 
